@@ -3,6 +3,7 @@ pub mod c06;
 pub mod qrig;
 pub mod c05;
 pub mod c19;
+pub mod c07;
 pub mod c10;
 pub mod c12;
 use crate::Ctx;
@@ -11,6 +12,7 @@ pub fn run(prop: &str, ctx: &mut Ctx) -> bool {
         "C06" => c06::run(ctx),
         "C05" => c05::run(ctx),
         "C19" => c19::run(ctx),
+        "C07" => c07::run(ctx),
         "C10" => c10::run(ctx),
         "C12" => c12::run(ctx),
         "C01" | "C02" | "C03" | "C04" => { let n = ctx.budget(72, 12); qrig::standard_histories(ctx, &prop.to_lowercase(), n) }
